@@ -909,10 +909,14 @@ func (w *world) genSignedData() {
 	owner := joinWireName(ownerLabels)
 	typ := vlib.Pick(r, rrTypes)
 	rrs := genRRset(r, owner, typ)
-	for i := 1 + r.Intn(3); i > 0; i-- {
-		cnt := len(ownerLabels)
-		labels := vlib.Pick(r, []int{cnt, cnt, cnt, cnt - 1, cnt - 2, 0, cnt + 1, 1})
+	cnt := len(ownerLabels)
+	seen := map[int]bool{}
+	for _, labels := range []int{cnt, cnt - 1, cnt - 2, cnt - 3, 1, 0, cnt + 1} { // every expansion depth, always
 		labels = max(0, min(labels, 255))
+		if seen[labels] {
+			continue
+		}
+		seen[labels] = true
 		var signer []byte
 		if r.Chance(3, 4) && cnt > 0 {
 			signer = joinWireName(recaseLabels(r, ownerLabels[r.Intn(cnt+1):]))
